@@ -71,7 +71,7 @@ def run(ctx):
         p.pairs = p.all_pairs()
         p.meta = {"kind": "star"}
         plats.append(p)
-    R.run_check(ctx, plats, chunk=10 if quick else 24, mc_pairs=600 if quick else 5000,
+    R.run_check(ctx, plats, chunk=6 if quick else 12, mc_pairs=600 if quick else 5000,
                 nontrivial=lambda plat, s, d: s != d,
                 rule="shapes = torus / fat-tree / dragonfly shapes (all torus and dragonfly shapes in the thorough tier, a fixed "
                      "core + a seeded sample otherwise) x random flags (loopback, limiter, split-duplex), 16 XML <cluster> "
